@@ -246,6 +246,68 @@ P = {
          'FigureData; the later chain is a new object graph in the same interpreter',
     technique='Lean 4 proof (parser/printer mutual induction, permutation/sortedness, list framing) + differential correspondence + direct round-trip oracle',
     ref='§4 C06'),
+ 'C14': dict(
+    text='Lean 4 theorems over the executable model TCV.Cache (FileCache.get/get_or_compute/force, JsonCache key check and allow_nones, '
+         'sub-caches, InMemoryCache as a machine over file states absent | corrupt | entry k v): cache_refines_dict — for every '
+         'operation sequence of any length (get / get_or_compute / forced, returning or raising computers, any keys and sub-caches, '
+         'interleaved with arbitrary damage: delete, empty, truncate, swap in a file recorded for another key) from every file system '
+         'the outputs and computer-call counts equal those of a dictionary specification in which corrupt files count as absent '
+         '(induction over the operation list via an abstraction function); get_never_computes, raise_stores_nothing, '
+         'foreign_key_reported, damaged_is_recomputed, force_recomputes_and_replaces, stored_roundtrip, subcaches_disjoint / '
+         'distinct_keys_disjoint (paths differ when (sub-cache directory, key hash) differ), and torn_json_never_loads: every proper '
+         'prefix of the text JsonCache writes for {"key":k,"value":v} (any key, any nesting) fails the structural scan of a JSON '
+         'document. Correspondence on every run: seeded operation sequences per cache type (Json with allow_nones on/off, DataFrame, '
+         'NumpyArray, InMemory) with unicode keys (empty, "/", NUL, astral, look-alikes), nested sub-caches, fresh cache objects, '
+         'injected damage, a truncation sweep over every proper prefix length of real entry files, literal comparison of the entry '
+         'text and of the set of cache files (real sha256 paths) with the compiled model; dictionary oracle in Python.',
+    note='partial: sha256 collision-freeness is a hypothesis (hash is a parameter); serializer round-trip and "a damaged pickle/npy file makes the '
+         'reader raise" are assumptions sampled by the sweep (a theorem only for the JSON text, and there under the assumption that '
+         'orjson.loads rejects what the structural scan rejects — checked on prefixes and random mutations every run); values are opaque '
+         'in the model (only None is inspected); per-thread memory of InMemoryCache and DummyCache are not modelled; quirk modelled as is: '
+         'a sub-cache of JsonCache(allow_nones=False) allows None again (constructor default)',
+    technique='Lean 4 proof (refinement by abstraction function + induction over histories; balanced-segment induction for JSON prefixes) '
+              '+ differential correspondence with damage injection',
+    ref='§4 C14'),
+ 'C15': dict(
+    text='Lean 4 theorems over TCV.Conc, a small-step interleaving semantics of FileCache.get / get_or_compute on one key for ANY number of '
+         'callers (each get, get_or_compute or forced get_or_compute, with a returning or raising computer; program counters acquire, '
+         'exists, release, load (outside the lock), acquire, compute, open temp, write temp, replace, release), every interleaving of any '
+         'length, from every initial state (absent or complete earlier entry, any stale temp file): lock_mutex, file_complete (the cache '
+         'file is always absent or a complete entry of a finished computation), returns_complete, no_failure_from_writer, '
+         'monotone_presence, no_recompute_after_return, get_after_store_hits, computes_at_most_once — by one inductive invariant over the '
+         'step relation, no bound on callers or steps; the executable step function is proved equal to the relation (step_iff, '
+         'run_is_reach). For the protocol before repair F8 (write in place) the negation is proved on the two witness schedules '
+         '(C15_full_inplace_false). Correspondence: a deterministic scheduler over the REAL code (harness-side replacement of FileLock, '
+         'wrappers around Path.exists / open / os.replace / unlink, computer calls as scheduling points) enumerates ALL interleavings '
+         'of every pair and every triple of callers (quick: triples over get/get_or_compute/forced; thorough: also raising computers) '
+         'with and without a stored entry, plus seeded random schedules of 3-5 callers; every schedule is replayed on the compiled model '
+         '(step labels, enabled sets, results, compute counts, final file/temp/lock compared); property oracle on the observed runs; '
+         'one multi-process smoke run with the real filelock.',
+    note='partial: FileLock is a mutex and os.replace is atomic by assumption (threads are scheduled at the instrumented points; processes '
+         'are covered by that assumption and a smoke run only); the enumeration is exhaustive for those scheduling points, not for '
+         'byte-level preemption inside a write (the temp file is private to the lock holder, which is what the model states); one key only '
+         '(keys have disjoint files by C14)',
+    technique='Lean 4 proof (inductive invariant over an interleaving semantics, grind) + exhaustive schedule enumeration against the real code',
+    ref='§4 C15'),
+ 'C16': dict(
+    text='Lean 4 theorems over TCV.Cached (the decorator\'s normalisation loop transcribed as it is, Python\'s own binding defined '
+         'independently): key_is_binding — for every signature (any number of positional-or-keyword and keyword-only parameters, any '
+         'defaults), every list of ignored names and every valid call, the dictionary that is serialised equals Python\'s binding with '
+         'defaults filled minus ignored names (sorted by name); hence same_binding_same_key for all spellings, ignored_never_matter, '
+         'different_binding_different_key (for an encoder injective on sorted dictionaries), method_gets_binding; '
+         'methods_and_versions_disjoint (sub-cache name determines method and version) and, through M-Cache, no shared file; '
+         'force_cache / only_cache / store_cache_value stated against the C14 theorems. Correspondence: generated signatures (0-5 '
+         'parameters, mixed kinds), 2-6 spellings per binding incl. reordered nested mappings, perturbed bindings, confusable sibling '
+         'methods/versions, control keywords, raising methods, invalid calls; back ends: recording dict cache_object, own JsonCache, own '
+         'InMemoryCache, bare @cached — behind a recording proxy; compared per call: key text (json.dumps re-implemented in the model, '
+         'literal), sub-cache name, result, method-call count, entry count, and Lean valid/binding against inspect.signature.bind + '
+         'apply_defaults; dictionary oracle over Python\'s binding.',
+    note='partial: injectivity of json.dumps(sort_keys=True) on JSON-distinguishable values is a hypothesis of different_binding_different_key '
+         '(exercised by the correspondence, not proved); argument values are JSON-like; *args/**kwargs signatures, custom key functions and '
+         'parameters named like the control keywords or `obj` are outside the domain; outside the domain the code does not reject calls '
+         'Python would reject (surplus positionals are bound to keyword-only parameters or dropped) — modelled and compared as is',
+    technique='Lean 4 proof (loop invariant as dictionary lookup, permutation/sorting lemmas) + differential correspondence over spellings',
+    ref='§4 C16'),
 }
 
 checks, na = [], []
